@@ -107,6 +107,13 @@ class BufMap:
         self.arr = {f: mk(f'{name}.{f}', s) for f, s in self.FIELDS.items()}
         self.card = mk(name + '.card')
 
+    @staticmethod
+    def empty(name='buffers'):
+        b = BufMap(name)
+        b.dom = z3.K(INT, z3.BoolVal(False))
+        b.card = z3.IntVal(0)
+        return b
+
     def frame_terms(self):
         return dict(self.arr, dom=self.dom, card=zint(self.card))
 
